@@ -19,3 +19,4 @@ for p in sorted((HERE / "props").glob("C*.py")):
         continue
     done.add(fn)
     print(p.stem, fn())
+common.regen_ops_index()
